@@ -329,10 +329,20 @@ ExtAppendCore(w, svc) ==
 
 \* reader.go default branch -> Engine.Apply(payload) with n complete events; `elapsed` is
 \* the clock condition time.Since(lastCommitTime) > CommitEvery
-ReadApplyCore(n, elapsed) ==
+(* `tail` is what follows the n complete events in the payload: "none"; "partial" = the first
+   bytes of an event whose rest is not in the buffer / not in the file yet (chunk boundary of
+   the reader, a master that is writing, a torn tail) -- the apply callback consumes the n
+   events and reports ErrorNotEnoughData; "svc" = a record of the binlog's own -- the callback
+   reports ErrorUnknownMagic.  In both cases apply() still stores offset + n in the same
+   transaction and advances e.dbOffset, and the error goes back to the binlog, which calls
+   again with more data.  (Not combined with the Desync move: there the skip arithmetic would
+   cut inside the tail.)                                                                   *)
+ReadApplyCore(n, elapsed, tail) ==
   /\ Reading
-  /\ n >= 1 /\ rpos + n <= written
+  /\ n >= 0 /\ (n = 0 => tail # "none") /\ rpos + n <= written
   /\ \A i \in (rpos + 1)..(rpos + n) : blog[i].id # 0
+  /\ tail = "svc" => (rpos + n < written /\ blog[rpos + n + 1].id = 0)
+  /\ tail # "none" => tx.off <= dbOffset
   /\ LET chunk == SubSeq(blog, rpos + 1, rpos + n)
      IN IF (elapsed \/ rst = "wtc") /\ dbOffset > cinfo
           THEN /\ rst' = "wtc"
@@ -473,9 +483,10 @@ BlWrite == Bound /\ BlWriteCore /\ hist' = Record([a |-> "BlWrite"])
 BlSync == Bound /\ BlSyncCore /\ hist' = Record([a |-> "BlSync"])
 BlCommit == Bound /\ BlCommitCore /\ hist' = Record([a |-> "BlCommit"])
 ExtAppend(w, s) == Bound /\ ExtAppendCore(w, s) /\ hist' = Record([a |-> "ExtAppend", w |-> w, svc |-> s])
-ReadApply(n, el) == Bound /\ ReadApplyCore(n, el)
-                    /\ hist' = Record([a |-> "Apply", ids |-> IdsOf(SubSeq(blog, rpos + 1, rpos + n)),
-                                       szs |-> [i \in 1..n |-> blog[rpos + i].sz], elapsed |-> el, post |-> Post])
+ReadApply(n, el, tl) == Bound /\ ReadApplyCore(n, el, tl)
+                        /\ hist' = Record([a |-> "Apply", ids |-> IdsOf(SubSeq(blog, rpos + 1, rpos + n)),
+                                           szs |-> [i \in 1..n |-> blog[rpos + i].sz], elapsed |-> el,
+                                           tail |-> tl, post |-> Post])
 ReadSkip == Bound /\ ReadSkipCore /\ hist' = Record([a |-> "Skip", n |-> blog[rpos + 1].sz, post |-> Post])
 ReadCommit == Bound /\ rcommit # rpos /\ ReadCommitCore /\ hist' = Record([a |-> "Commit", off |-> EndOff(blog, rpos), post |-> Post])
 ReadCommitLow(k) == Bound /\ ReadCommitLowCore(k) /\ hist' = Record([a |-> "Commit", off |-> EndOff(blog, k), post |-> Post])
@@ -492,7 +503,7 @@ Next == \/ \E w \in Writes, s \in Svc : DoWrite(w, s) \/ DoWriteLazy(w, s) \/ Do
         \/ DoRead
         \/ \E r \in Readers : ViewA(r)
         \/ TxCommit \/ BlWrite \/ BlSync \/ BlCommit
-        \/ \E n \in 1..Cardinality(Writes), el \in BOOLEAN : ReadApply(n, el)
+        \/ \E n \in 0..Cardinality(Writes), el \in BOOLEAN, tl \in {"none", "partial", "svc"} : ReadApply(n, el, tl)
         \/ ReadSkip \/ ReadCommit \/ ReplayDone
         \/ \E k \in 1..Len(blog) : Desync(k) \/ ReadCommitLow(k)
         \/ Crash \/ Restart \/ Close
